@@ -32,7 +32,7 @@ func recGen(g *Gen) {
 	vals := append(append([]string{}, recScalarVals...), recSlotVals...)
 	for _, ft := range recFieldTypes {
 		for _, v := range vals {
-			for _, route := range []string{"h", "d", ".", "s"} {
+			for _, route := range []string{"h", "d", ".", "s", "q", "a"} {
 				g.Emit("%s ; W %s 1 :0 %s", pre(ft), route, v)
 				g.Count("grid write route=" + route)
 			}
@@ -54,11 +54,11 @@ func recGen(g *Gen) {
 	for _, k := range recKeys {
 		for _, v := range []string{"i7", "t1", "n", "v0"} {
 			for _, slot := range []int{0, 1, 2} {
-				for _, route := range []string{"h", "d", "x", ".", "s"} {
-					if (route == "x") == (k[0] == ':') {
+				for _, route := range []string{"h", "d", "x", ".", "s", "q", "a"} {
+					if route != "a" && route != "q" && (route == "x") == (k[0] == ':') {
 						continue
 					}
-					if (route == "." || route == "s") && k[0] != ':' {
+					if (route == "." || route == "s" || route == "q") && k[0] != ':' {
 						continue
 					}
 					g.Emit("%s ; W %s %d %s %s", pre("i"), route, slot, k, v)
@@ -235,9 +235,9 @@ func recRandomHistory(g *Gen) string {
 			key := recRandKey(g)
 			var routes []string
 			if key[0] == ':' {
-				routes = []string{"h", "d", ".", "s"}
+				routes = []string{"h", "d", ".", "s", "q", "a"}
 			} else {
-				routes = []string{"h", "d", "x"}
+				routes = []string{"h", "d", "x", "a"}
 			}
 			route := routes[g.Rng.Intn(len(routes))]
 			slot := g.Rng.Intn(nSlot)
